@@ -397,6 +397,12 @@ def run(ck, tier):
     ck.guard(r4_illegal_function, ck, cx)
     ck.guard(r5_slave_failure, ck, cx)
     ck.guard(r7_block_validate, ck, cx)
+    ck.rule('R8', 'the quantities the guards compare are the wire fields: decode() of the write requests reads the spec layout (shared with C01 R3)')
+    from .c01 import shared_layout_findings
+    n8 = ck.guard(shared_layout_findings, ck, cx, 'R8', ('WriteMultipleCoilsRequest', 'WriteMultipleRegistersRequest', 'ReadWriteMultipleRegistersRequest',
+                                                         'WriteSingleCoilRequest', 'WriteSingleRegisterRequest', 'MaskWriteRegisterRequest'),
+                  'the byte-count / quantity guards of execute() then judge values that are not the ones on the wire', ('R3',))
+    ck.floor('R8', n8 or 0, 6, 'decode layout obligations of the write requests')
     ck.assume('address arithmetic of getValues/setValues inside the data blocks is decided by C18, not here')
     ck.assume('partial writes of a custom datastore that raises inside setValues are not decided')
     ck.assume('attribute <-> wire-field binding of the guarded quantities is decided by C01/C02')
